@@ -11,6 +11,20 @@ from ..summaries import summarize
 from .common import find_entry, interiors, rename_fields, short
 
 
+def no_scratch_dependence(rep, what, sm, names):
+    """field + step*flux(field) is a function of the field, the velocity and the step only: on no cell (ring included) may the
+    result contain what the caller's flux / work array held before the call"""
+    for n in names:
+        bad = []
+        for box, e in sm.final[n]:
+            for a in PW.of(e).all_atoms():
+                if a[0] == "f" and ("flux" in a[1] or "buffer" in a[1]):
+                    bad.append("cell %r contains the prior content of %s" % (box, a[1]))
+        rep.ob("C20.euler", "%s %s: independent of the scratch array" % (what, n), not bad, "; ".join(sorted(set(bad))[:2]) if bad else
+               "all %d cells depend on the field, velocity and step only" % len(sm.final[n]),
+               key="C20.euler|scratch|%s|%s|%s" % (what, n, sorted(set(b.split(" contains ")[1] for b in bad))[:2]), nontrivial=False)
+
+
 def run(S, tier, rep):
     rep.rule_text = ("Euler kernels: resolved summary == field + step * (the library's own flux kernel applied to the field) with the step "
                      "parameter unscaled; SSP-RK3: summary == (I + A + A^2/2 + A^3/6) omega where A is the operator extracted from the "
@@ -23,8 +37,9 @@ def run(S, tier, rep):
         flux, _ = interiors(S, find_entry("gen_advection_flux_conservative_eno3_pyst_kernel_%dd" % dim))
         for ft in fts:
             opts = {} if dim == 2 else {"field_type": ft}
-            ex, _ = interiors(S, find_entry("gen_advection_timestep_euler_forward_conservative_eno3_pyst_kernel_%dd" % dim, **opts))
+            ex, sm_ = interiors(S, find_entry("gen_advection_timestep_euler_forward_conservative_eno3_pyst_kernel_%dd" % dim, **opts))
             names = ["field"] if ft == "scalar" else [comp("vector_field", c) for c in range(dim)]
+            no_scratch_dependence(rep, "advection %dD %s" % (dim, ft), sm_, names)
             for n in names:
                 # library flux kernel: advection_flux += inv_dx * D(field): with flux buffer 0 and inv_dx = -dt_by_dx
                 lib = rename_fields(flux["advection_flux"], {"field": n}) if n != "field" else flux["advection_flux"]
@@ -40,8 +55,9 @@ def run(S, tier, rep):
         dflux, _ = interiors(S, find_entry("gen_diffusion_flux_pyst_kernel_%dd" % dim, reset_ghost_zone=True, **({"field_type": "scalar"} if dim == 3 else {})))
         for ft in fts:
             opts = {} if dim == 2 else {"field_type": ft}
-            ex, _ = interiors(S, find_entry("gen_diffusion_timestep_euler_forward_pyst_kernel_%dd" % dim, **opts))
+            ex, sm_ = interiors(S, find_entry("gen_diffusion_timestep_euler_forward_pyst_kernel_%dd" % dim, **opts))
             names = ["field"] if ft == "scalar" else [comp("vector_field", c) for c in range(dim)]
+            no_scratch_dependence(rep, "diffusion %dD %s" % (dim, ft), sm_, names)
             for n in names:
                 lib = dflux["diffusion_flux"].map_atoms(lambda a, n=n: ("f", n, a[2]) if a[0] == "f" and a[1] == "field" else a)
                 lib = lib.subs({("s", "prefactor"): Poly.sym("nu_dt_by_dx2")})
@@ -50,7 +66,8 @@ def run(S, tier, rep):
                        "diffusion step is not field + nu_dt_by_dx2 * Laplacian-sum(field): %s" % short(ex[n]) if not ok else "field + step*flux",
                        key="C20.euler|diff|%d|%s|%s" % (dim, ft, n))
     sflux, _ = interiors(S, find_entry("gen_vorticity_stretching_flux_pyst_kernel_3d"))
-    eul, _ = interiors(S, find_entry("gen_vorticity_stretching_timestep_euler_forward_pyst_kernel_3d"))
+    eul, sm_ = interiors(S, find_entry("gen_vorticity_stretching_timestep_euler_forward_pyst_kernel_3d"))
+    no_scratch_dependence(rep, "vortex stretching", sm_, [comp("vorticity_field", c) for c in range(3)])
     A = {}
     for c in range(3):
         lib = sflux[comp("vorticity_stretching_flux_field", c)].subs({("s", "prefactor"): Poly.sym("dt_by_2_dx")})
@@ -87,7 +104,7 @@ def run(S, tier, rep):
                "equals I + A + A^2/2 + A^3/6 with A the Euler operator at the full step",
                key="C20.ssprk3|%s|%s" % (n, detail[:120]),
                sample={"kernel": "vorticity_stretching_timestep_ssprk3", "component": n, "terms_in_A3": len(as_poly(A3[n].leaf).t)})
-    rep.require_min("C20.euler", 13)
+    rep.require_min("C20.euler", 26)
     rep.require_min("C20.ssprk3", 3)
 
 
